@@ -49,9 +49,13 @@ Inductive eact :=
 Definition forget (a : eact) : act :=
   match a with EA a => a | Via _ d now => Update d now end.
 
-Record fvariant := { drop_standin_at_once : bool }.
-Definition fhead : fvariant := {| drop_standin_at_once := false |}.
-Definition standin_dropped : fvariant := {| drop_standin_at_once := true |}.
+(* names: [evariant]/[ehead] (e = entry points; ehead = the code as it is, the
+   PROVED variant) are deliberately distinct from Fine.fvariant / Fine.fhead
+   (Fine.fhead = the code WITHOUT the re-check of fix-F-C11a, the REFUTED
+   variant of PropertyFine.v; the code the suites run is Fine.ffixed). *)
+Record evariant := { drop_standin_at_once : bool }.
+Definition ehead : evariant := {| drop_standin_at_once := false |}.
+Definition standin_dropped : evariant := {| drop_standin_at_once := true |}.
 
 Record est := {
   ebase : st;
@@ -69,23 +73,23 @@ Definition drop_previous (b : st) (d : Z) : st :=
      vers := del (cur b) (set (cur b + 1) d (vers b));
      pins := pins b; txnQ := txnQ b; verQ := verQ b |}.
 
-Definition update_v (V : fvariant) (s : est) (flag : bool) (d now : Z) : est :=
+Definition update_v (V : evariant) (s : est) (flag : bool) (d now : Z) : est :=
   let b := ebase s in
   {| ebase := if drop_standin_at_once V && is_flagged (cur b) s
               then drop_previous b d else update b d now;
      flagged := if flag then (cur b + 1) :: flagged s else flagged s |}.
 
-Definition estep (V : fvariant) (s : est) (a : eact) : est * option out :=
+Definition estep (V : evariant) (s : est) (a : eact) : est * option out :=
   match a with
   | EA (Update d now) => (update_v V s false d now, None)
   | EA a => ({| ebase := fst (step (ebase s) a); flagged := flagged s |}, snd (step (ebase s) a))
   | Via e d now => (update_v V s (sets_flag e) d now, None)
   end.
 
-Definition eafter (V : fvariant) (s : est) (h : list eact) : est :=
+Definition eafter (V : evariant) (s : est) (h : list eact) : est :=
   fold_left (fun s a => fst (estep V s a)) h s.
 
-Fixpoint eouts (V : fvariant) (s : est) (h : list eact) : list out :=
+Fixpoint eouts (V : evariant) (s : est) (h : list eact) : list out :=
   match h with
   | [] => []
   | a :: r =>
@@ -96,7 +100,7 @@ Fixpoint eouts (V : fvariant) (s : est) (h : list eact) : list out :=
   end.
 
 (* the pinned-version statement over histories with entry points, for variant V *)
-Definition pinned_entry_v (V : fvariant) : Prop :=
+Definition pinned_entry_v (V : evariant) : Prop :=
   forall d0 pre txn t0 mid t,
   monotone (map forget (pre ++ EA (Get txn t0) :: mid ++ [EA (Get txn t)])) ->
   lookup txn (pins (ebase (eafter V (einit d0) pre))) = None ->
@@ -110,7 +114,7 @@ Definition pinned_entry_v (V : fvariant) : Prop :=
                o_fallback := false |}.
 
 (* the retention statement (window form) over histories with entry points *)
-Definition retention_entry_v (V : fvariant) : Prop :=
+Definition retention_entry_v (V : evariant) : Prop :=
   forall d0 pre txn t0 mid,
   lookup txn (pins (ebase (eafter V (einit d0) pre))) = None ->
   Forall (fun a => t0 <= time_of (forget a) <= t0 + ttl) mid ->
@@ -122,26 +126,26 @@ Definition retention_entry_v (V : fvariant) : Prop :=
 (* ---- lemmas ---- *)
 
 Lemma estep_head_base s a :
-  ebase (fst (estep fhead s a)) = fst (step (ebase s) (forget a)) /\
-  snd (estep fhead s a) = snd (step (ebase s) (forget a)).
+  ebase (fst (estep ehead s a)) = fst (step (ebase s) (forget a)) /\
+  snd (estep ehead s a) = snd (step (ebase s) (forget a)).
 Proof.
   destruct a as [[txn now|d now|now|now|now]|e d now]; cbn; split; reflexivity.
 Qed.
 
 Lemma eafter_head_base h : forall s,
-  ebase (eafter fhead s h) = after (ebase s) (map forget h).
+  ebase (eafter ehead s h) = after (ebase s) (map forget h).
 Proof.
   induction h as [|a h IH]; intros s; [reflexivity|].
   cbn [eafter after fold_left map].
-  change (fold_left (fun s a => fst (estep fhead s a)) h (fst (estep fhead s a)))
-    with (eafter fhead (fst (estep fhead s a)) h).
+  change (fold_left (fun s a => fst (estep ehead s a)) h (fst (estep ehead s a)))
+    with (eafter ehead (fst (estep ehead s a)) h).
   change (fold_left (fun s a => fst (step s a)) (map forget h) (fst (step (ebase s) (forget a))))
     with (after (fst (step (ebase s) (forget a))) (map forget h)).
   rewrite IH. destruct (estep_head_base s a) as [E _]. rewrite E. reflexivity.
 Qed.
 
 Lemma eouts_head_base h : forall s,
-  eouts fhead s h = outs (ebase s) (map forget h).
+  eouts ehead s h = outs (ebase s) (map forget h).
 Proof.
   induction h as [|a h IH]; intros s; [reflexivity|].
   cbn [eouts outs map].
@@ -152,14 +156,14 @@ Lemma step_get s txn now :
   step s (Get txn now) = (fst (get s txn now), Some (snd (get s txn now))).
 Proof. cbn. destruct (get s txn now). reflexivity. Qed.
 
-Lemma pinned_entry_head : pinned_entry_v fhead.
+Lemma pinned_entry_head : pinned_entry_v ehead.
 Proof.
   intros d0 pre txn t0 mid t M P T s1 o1 o2. subst o1 o2 s1.
   rewrite !map_app in M. cbn [map forget] in M. rewrite map_app in M. cbn [map forget] in M.
   rewrite eafter_head_base in P. cbn [einit ebase] in P.
-  destruct (estep_head_base (eafter fhead (einit d0) pre) (EA (Get txn t0))) as [B1 O1].
+  destruct (estep_head_base (eafter ehead (einit d0) pre) (EA (Get txn t0))) as [B1 O1].
   destruct (estep_head_base
-              (eafter fhead (fst (estep fhead (eafter fhead (einit d0) pre) (EA (Get txn t0)))) mid)
+              (eafter ehead (fst (estep ehead (eafter ehead (einit d0) pre) (EA (Get txn t0)))) mid)
               (EA (Get txn t))) as [_ O2].
   rewrite O2, O1. cbn [forget].
   rewrite (eafter_head_base mid), B1. cbn [forget].
@@ -169,11 +173,11 @@ Proof.
   cbn zeta in H1, H2. rewrite H1. split; [reflexivity|]. rewrite H2. reflexivity.
 Qed.
 
-Lemma retention_entry_head : retention_entry_v fhead.
+Lemma retention_entry_head : retention_entry_v ehead.
 Proof.
   intros d0 pre txn t0 mid P F s1. subst s1.
   rewrite eafter_head_base in P. cbn [einit ebase] in P.
-  destruct (estep_head_base (eafter fhead (einit d0) pre) (EA (Get txn t0))) as [B1 _].
+  destruct (estep_head_base (eafter ehead (einit d0) pre) (EA (Get txn t0))) as [B1 _].
   rewrite (eafter_head_base mid), B1. cbn [forget].
   rewrite (eafter_head_base pre). cbn [einit ebase].
   rewrite step_get. cbn [fst].
